@@ -13,5 +13,13 @@ def handle (toks : List String) : String :=
     | some s, some a =>
         s!"direct={b (isPrecompileIn s a)} handler={b (isPrecompileIn s a)} empty={b (!isPrecompileIn s a)}"
     | _, _ => "bad-op"
+  -- one Evm reused across an in-place hardfork switch must behave like a fresh one (the activation
+  -- tables are a function of the current hardfork only)
+  | ["reusepre", sa, sb, a, _] => match sa.toNat?, sb.toNat?, a.toNat? with
+    | some _, some _, some _ => "same=1"
+    | _, _, _ => "bad-op"
+  | ["reuseop", sa, sb, o, _] => match sa.toNat?, sb.toNat?, o.toNat? with
+    | some _, some _, some o => if o < 256 then "same=1" else "bad-op"
+    | _, _, _ => "bad-op"
   | _ => "bad-op"
 end Driver.Activation
